@@ -233,6 +233,21 @@ def run_unit(tmpl, tier, seeds=(0, 1, 2)):
             if not surviving:
                 break
         fails = list(surviving.values())
+    # lost anchors: proof text (invariants, lemma calls, assertions) sitting strictly inside a span that /repo deleted or
+    # replaced was dropped by the merge. A failed obligation of such an item may be a lost proof hint rather than a
+    # broken property: undecided, never an alarm (the bounded stand-ins still decide within their bound).
+    lost = {k for k, v in asm.items.items() if any((d.get("ghost_dropped") or "").strip() for d in (v.get("drift") or []))}
+    if lost and fails:
+        kept = []
+        for f in fails:
+            info = asm.line_info(f.line)
+            it = info["item"] if info else None
+            if it in lost:
+                undecided.append("lost anchor: proof annotations inside a rewritten span of %s were dropped by the merge; "
+                                 "obligation %s is undecided" % (it, f.oid))
+            else:
+                kept.append(f)
+        fails = kept
     out["failures"], out["undecided"] = fails, undecided
     out["wall_s"] = time.time() - t0
     out["path"] = path
